@@ -27,6 +27,9 @@ type OblResult struct {
 	Output    string  `json:"-"`
 	File      string  `json:"-"`
 	FailTrail []string `json:"-"`
+	Observed  map[string]string `json:"-"`
+	Panicking bool `json:"-"`
+	Contract  *FuncContract `json:"-"`
 	Func      string  `json:"func"`
 	Counts    bool    `json:"counts"`
 }
@@ -96,6 +99,12 @@ func (x *Exec) emitHeader(texts []string) string {
 func instanceTexts(o *Obligation) []string {
 	var texts []string
 	for _, in := range o.Instances {
+		for _, ob := range in.Observes {
+			texts = append(texts, ob.T.S)
+		}
+		for _, t := range in.Small {
+			texts = append(texts, t.S)
+		}
 		for _, p := range in.PC {
 			texts = append(texts, p.S)
 		}
@@ -105,6 +114,10 @@ func instanceTexts(o *Obligation) []string {
 }
 
 func (x *Exec) writeQuery(file string, o *Obligation, only []int, withModel bool) error {
+	return x.writeQuery2(file, o, only, withModel, false)
+}
+
+func (x *Exec) writeQuery2(file string, o *Obligation, only []int, withModel bool, small bool) error {
 	texts := instanceTexts(o)
 	var b strings.Builder
 	if withModel {
@@ -124,8 +137,21 @@ func (x *Exec) writeQuery(file string, o *Obligation, only []int, withModel bool
 		for _, p := range in.PC {
 			b.WriteString("(assert " + p.S + ")\n")
 		}
-		b.WriteString("(assert (not " + in.Goal.S + "))\n(check-sat)\n")
+		b.WriteString("(assert (not " + in.Goal.S + "))\n")
+		if small {
+			for _, t := range in.Small {
+				b.WriteString("(assert " + t.S + ")\n")
+			}
+		}
+		b.WriteString("(check-sat)\n")
 		if withModel {
+			if len(in.Observes) > 0 {
+				var ts []string
+				for _, ob := range in.Observes {
+					ts = append(ts, ob.T.S)
+				}
+				b.WriteString("(get-value (" + strings.Join(ts, " ") + "))\n")
+			}
 			b.WriteString("(get-model)\n")
 		}
 		b.WriteString("(pop 1)\n")
@@ -203,7 +229,18 @@ func (x *Exec) discharge(o *Obligation, outDir string, timeoutMs int, twoSolvers
 					mf := filepath.Join(outDir, sanitizeFile(o.Name)+".model.smt2")
 					x.writeQuery(mf, o, []int{i}, true)
 					_, mraw, _ := runSolver(sp, mf, timeoutMs, 1)
+					if len(o.Instances[i].Small) > 0 {
+						// prefer a small counterexample for the replay
+						x.writeQuery2(mf, o, []int{i}, true, true)
+						if sres, sraw, _ := runSolver(sp, mf, timeoutMs, 1); len(sres) == 1 && sres[0] == "sat" {
+							mraw = sraw
+						} else {
+							x.writeQuery(mf, o, []int{i}, true)
+						}
+					}
 					res.Model = mraw
+					res.Observed = parseGetValue(mraw, o.Instances[i].Observes)
+					res.Panicking = strings.Contains(o.Kind, "panic")
 				}
 				res.Ms = time.Since(t0).Milliseconds()
 				return res
@@ -302,4 +339,88 @@ func (x *Exec) entails(st *State, t Term) bool {
 	r := len(out) == 1 && out[0] == "unsat"
 	x.entailCache[q] = r
 	return r
+}
+
+// parseGetValue reads the `(get-value ...)` answer: ((term value) (term value) ...), in order.
+func parseGetValue(out string, obs []Observe) map[string]string {
+	res := map[string]string{}
+	if len(obs) == 0 {
+		return res
+	}
+	i := strings.Index(out, "((")
+	if i < 0 {
+		return res
+	}
+	// parse s-expressions of the outer list
+	pos := i + 1
+	k := 0
+	for pos < len(out) && k < len(obs) {
+		for pos < len(out) && (out[pos] == ' ' || out[pos] == '\n' || out[pos] == '\t') {
+			pos++
+		}
+		if pos >= len(out) || out[pos] != '(' {
+			break
+		}
+		end := matchSexp(out, pos)
+		pair := out[pos+1 : end]
+		// pair = "<term> <value>"; the term is obs[k].T.S verbatim or re-printed; take the last s-expression as value
+		val := lastSexp(pair)
+		res[obs[k].Name] = smtValueToGo(val)
+		k++
+		pos = end + 1
+	}
+	return res
+}
+
+func matchSexp(s string, i int) int {
+	depth := 0
+	for j := i; j < len(s); j++ {
+		switch s[j] {
+		case '(':
+			depth++
+		case ')':
+			depth--
+			if depth == 0 {
+				return j
+			}
+		}
+	}
+	return len(s) - 1
+}
+
+func lastSexp(s string) string {
+	s = strings.TrimSpace(s)
+	if strings.HasSuffix(s, ")") {
+		depth := 0
+		for j := len(s) - 1; j >= 0; j-- {
+			switch s[j] {
+			case ')':
+				depth++
+			case '(':
+				depth--
+				if depth == 0 {
+					return s[j:]
+				}
+			}
+		}
+	}
+	if j := strings.LastIndexAny(s, " \n\t"); j >= 0 {
+		return s[j+1:]
+	}
+	return s
+}
+
+// smtValueToGo renders an SMT numeral/boolean as Go literal text: (- 5) -> -5, (/ 1.0 2.0) -> (1.0/2.0).
+func smtValueToGo(v string) string {
+	v = strings.TrimSpace(v)
+	if strings.HasPrefix(v, "(- ") {
+		return "-" + smtValueToGo(v[3:len(v)-1])
+	}
+	if strings.HasPrefix(v, "(/ ") {
+		parts := strings.Fields(v[3 : len(v)-1])
+		if len(parts) == 2 {
+			return "(" + smtValueToGo(parts[0]) + "/" + smtValueToGo(parts[1]) + ")"
+		}
+	}
+	return v
 }
